@@ -54,14 +54,13 @@ Proof. revert l; induction n; destruct l; simpl; intros; try lia. rewrite IHn by
 Lemma length_removelast {A} (l : list A) : length (removelast l) = pred (length l).
 Proof. induction l; simpl; auto. destruct l; simpl in *; auto. Qed.
 
-Lemma find_idx_lt c l i : find_idx c l = Some i -> (i < length l)%nat.
-Proof. revert i; induction l; simpl; intros; try discriminate. destruct (Nat.eqb (fst a) c).
-  - inversion H; lia.
-  - destruct (find_idx c l); simpl in H; inversion H. specialize (IHl n eq_refl). lia. Qed.
+Lemma rswap_length {A} (k : A -> nat) c : forall l l', rswap k c l = Some l' -> S (length l') = length l.
+Proof. induction l; simpl; intros l' H; try discriminate. destruct (Nat.eqb (k a) c).
+  - inversion H; subst. destruct l as [|b l0]; [reflexivity|]. cbn [length]. rewrite (length_removelast (b :: l0)). reflexivity.
+  - destruct (rswap k c l) eqn:E; simpl in H; inversion H; subst. simpl. f_equal. apply IHl; auto. Qed.
 
 Lemma remove_swap_length c l l' : remove_swap c l = Some l' -> S (length l') = length l.
-Proof. unfold remove_swap. destruct (find_idx c l) eqn:E; intros H; inversion H.
-  apply find_idx_lt in E. rewrite length_removelast, length_upd. lia. Qed.
+Proof. apply rswap_length. Qed.
 
 Lemma lenZ_remove_swap c l l' : remove_swap c l = Some l' -> lenZ l' = lenZ l - 1.
 Proof. intros H; apply remove_swap_length in H. unfold lenZ. lia. Qed.
